@@ -81,7 +81,7 @@ type muxProfile struct {
 func muxProfileFor(prop string) muxProfile {
 	switch prop {
 	case "C06":
-		return muxProfile{w: [6]int{30, 40, 5, 5, 10, 10}, sendFaultPct: 0}
+		return muxProfile{w: [6]int{30, 40, 5, 5, 10, 10}, sendFaultPct: 4}
 	case "C13":
 		return muxProfile{w: [6]int{30, 5, 30, 25, 5, 5}, sendFaultPct: 25}
 	default: // C01
